@@ -27,6 +27,8 @@ pub struct SessionHandle {
 
 impl SessionHandle {
     pub fn subscribe(&self) -> broadcast::Receiver<Event> {
+        #[cfg(feature = "verif")]
+        rip_kernel::verif::yield_point("session_subscribe");
         self.sender.subscribe()
     }
 
